@@ -356,9 +356,22 @@ func (f *frame) evalValue(x ssa.Value, st *State) Val {
 		return in.opaque(x.Type(), "slice-to-array")
 	case *ssa.TypeAssert:
 		return in.typeAssert(f.val(x.X), x)
-	case *ssa.Range, *ssa.Next:
-		in.fail("range over map/string unsupported")
-		return nil
+	case *ssa.Range:
+		return in.rangeOf(st, f.val(x.X))
+	case *ssa.Next:
+		rv, ok := f.val(x.Iter).(*RangeV)
+		if !ok {
+			in.fail("range over string unsupported")
+			return nil
+		}
+		tup := x.Type().(*types.Tuple)
+		i := *rv.pos
+		*rv.pos = i + 1
+		if i < len(rv.Items) {
+			it := rv.Items[i]
+			return &StructV{T: tup, Fields: []Val{boolBV(it.OK), it.K, it.V}}
+		}
+		return &StructV{T: tup, Fields: []Val{boolBV(U.B0), zeroVal(tup.At(1).Type()), zeroVal(tup.At(2).Type())}}
 	}
 	in.fail("unsupported value instruction %T", x)
 	return nil
@@ -889,7 +902,9 @@ func (in *Interp) mapUpdate(st *State, m, k, v Val) {
 	}
 	key := constKey(k)
 	if key == "" {
-		in.havocObj(st, mv.Obj)
+		// symbolic key: remember the update (in order, with its condition)
+		st.ment[mv.Obj] = append(st.ment[mv.Obj], mapEntry{K: k, V: v, Cond: in.curCond()})
+		st.dirty[mv.Obj] = true
 		return
 	}
 	st.dirty[mv.Obj] = true
@@ -902,7 +917,7 @@ func (in *Interp) mapLookup(st *State, m, k Val, x *ssa.Lookup) Val {
 		return nil
 	}
 	key := constKey(k)
-	if key == "" || st.havoc[mv.Obj] > 0 {
+	if key == "" || st.havoc[mv.Obj] > 0 || len(st.ment[mv.Obj]) > 0 {
 		return nil
 	}
 	v, present := st.cells[mv.Obj][key]
@@ -913,4 +928,38 @@ func (in *Interp) mapLookup(st *State, m, k Val, x *ssa.Lookup) Val {
 		return &StructV{Fields: []Val{v, boolBV(bconst(present))}, T: x.Type()}
 	}
 	return v
+}
+
+// rangeOf builds the iteration sequence of a map value: a locally built map
+// with at most one (conditional) symbolic entry, or an opaque map whose
+// assumed size is Interp.MapLen (elements are named inputs).
+func (in *Interp) rangeOf(st *State, m Val) Val {
+	pos := 0
+	switch mv := m.(type) {
+	case *MapV:
+		if st.havoc[mv.Obj] > 0 || len(st.cells[mv.Obj]) > 0 || len(st.ment[mv.Obj]) > 1 {
+			in.fail("range over a map with more than one possible entry")
+			return nil
+		}
+		rv := &RangeV{pos: &pos}
+		for _, e := range st.ment[mv.Obj] {
+			rv.Items = append(rv.Items, rangeItem{OK: e.Cond, K: e.K, V: e.V})
+		}
+		return rv
+	case *OpaqueV:
+		mt, ok := mv.T.Underlying().(*types.Map)
+		if !ok || in.MapLen < 0 {
+			in.fail("range over an opaque map of unknown size")
+			return nil
+		}
+		rv := &RangeV{pos: &pos}
+		for i := 0; i < in.MapLen; i++ {
+			rv.Items = append(rv.Items, rangeItem{OK: U.B1,
+				K: in.opaqueOf(mt.Key(), fmt.Sprintf("%s.key%d", mv.Why, i)),
+				V: in.opaqueOf(mt.Elem(), fmt.Sprintf("%s.val%d", mv.Why, i))})
+		}
+		return rv
+	}
+	in.fail("range over %T unsupported", m)
+	return nil
 }
